@@ -131,6 +131,8 @@ func (t *FnTrans) call(in ssa.Instruction, c *ssa.CallCommon, res ssa.Value) {
 		argTypes = append(argTypes, t.resolve(a.Type()))
 	}
 	// ghost statements attached to this call site: "ghost before call <Type.Method|Func>: ..."
+	t.lastCall = c
+	defer func() { t.lastCall = nil }()
 	sk := key
 	if i := strings.LastIndex(sk, "/"); i >= 0 {
 		sk = sk[i+1:]
@@ -165,6 +167,12 @@ func (t *FnTrans) call(in ssa.Instruction, c *ssa.CallCommon, res ssa.Value) {
 	}
 	if ct == nil {
 		ct = t.eng.specs.Funcs[key]
+		// a sequential proof (opt sequential: no other goroutine) uses the callee's sequential variant, if it has one
+		if t.ct != nil && t.ct.Opts["sequential"] != "" {
+			if sv := t.eng.specs.Funcs[key+"#sequential"]; sv != nil && sv.Opts["sequential"] != "" {
+				ct = sv
+			}
+		}
 	}
 	if ct == nil && callee != nil && callee.Parent() != nil && closureOf.Fn != nil {
 		// closure without contract: havoc
@@ -677,6 +685,12 @@ func (t *FnTrans) modItem(x *Expr, env *Env, f func(comp, sort, ref string)) {
 			}
 		}
 		return
+	case x.Op == "call" && x.Name == "lock":
+		// the lock state of the calling goroutine for this mutex: the function returns holding (or having released)
+		// it; the ensures clauses say which
+		lc, ref := env.lockComp(x.Args[0])
+		f(lc, "(Array Int Int)", ref)
+		return
 	case x.Op == "call" && x.Name == "cells":
 		// every cell of the given Go type (pointer targets of that type)
 		T := env.typeArg(x.Args[0])
@@ -884,7 +898,7 @@ func (t *FnTrans) frameCheck() {
 	sort.Strings(comps)
 	a0 := q("$alloc@0")
 	for _, c := range comps {
-		if c == "$alloc" || allowedWhole[c] || strings.HasPrefix(c, "L.") {
+		if c == "$alloc" || allowedWhole[c] {
 			continue
 		}
 		now := t.cur.H[c]
@@ -897,6 +911,11 @@ func (t *FnTrans) frameCheck() {
 		if strings.HasPrefix(s, "(Array Int ") {
 			cond := []string{app("<", "fr$r", a0), app(">", "fr$r", "0")}
 			if strings.HasPrefix(c, "E.") {
+				cond = []string{app("<", "fr$r", a0)}
+			}
+			if strings.HasPrefix(c, "L.") {
+				// lock state of this goroutine: the function returns with exactly the locks it was entered with,
+				// except those its contract lists as lock(x) (objects that existed at entry)
 				cond = []string{app("<", "fr$r", a0)}
 			}
 			for _, r := range allowedRefs[c] {
